@@ -2,8 +2,35 @@ import TM.Term
 /-!
 # C03 — printable characters: storage, cursor advance, autowrap, wide characters
 
+"Each printable character is stored in the cell(s) starting at the cursor with the current
+attributes and advances the cursor by its cell width, leaving all other cells unchanged. At the
+right edge it continues on the next row (scrolling at the bottom of the scroll region) when
+autowrap is on, and keeps overwriting the last column when autowrap is off; a wide character is
+never left half-visible."
+
 Model: `TM.Scr.put` (`TM/Screen.lean`), built from `Row.put` / `Row.putKeep`, `Scr.lineDown`,
-`Scr.scroll`; `Term.apply` on `Tok.text` calls it on the active screen.
+`Scr.scroll`; `Term.apply` on `Tok.text` calls it on the active screen (`apply_text`).
+
+Everything is stated for every row / screen / text / nominal width / size; well-formedness enters
+only as `rowWF r = true` or `s.inv = true`.
+
+* §1 `Row.put_*`: the written row cell by cell (`Row.put_cell`), `rowWF` preserved (`Row.put_wf`),
+  style of changed cells (`Row.put_sty`).
+* §2 the character fits after the cursor (grid policy, or span policy off a continuation cell):
+  `put_inside`, `put_lastcol_nowrap`, `put_lastcol_wrap(_noscroll/_scroll)`,
+  `put_nowrap_last_column`, `put_cursor_cell`.
+* §3 it does not fit: `put_edge_wrap`, `put_edge_nowrap` (reduction to §2 from an explicit
+  state) and the spelled-out `put_edge_*` versions.
+* §4 `put_frame`, `put_rows_origin`.
+* §5 `put_keep_eq_blank` (+ the counterexample `put_keep_ne_blank_example` showing its extra
+  hypothesis is needed).
+* invariant: `put_blank_inv`, `put_keep_inv_off_cont`, `put_keep_inv_narrow`.
+* §6 span policy on a continuation cell: `Row.putKeep_cell`, `Row.putKeep_kept`,
+  `Row.putKeep_wf` (widths ≤ 2; fails for width 3: `putKeep_width3_not_wf_example`),
+  `put_keep_on_cont`.
+
+`effW s w0` / `effText s text w0` are the width and bytes really used: `max w0 1` and `text`,
+or `1` and U+FFFD when `max w0 1 > s.w` (`effW_effText_normal`).
 -/
 namespace TM.C03
 open TM
@@ -610,7 +637,8 @@ theorem Row.put_outside (r : Row) (x : Nat) (text : Bytes) (w : Nat) (st : Style
 
 /-- **C03 row level, other cells.** A cell outside `[x, x+w)` is unchanged, unless the (wide)
     character covering it is cut by column `x` or by column `x+w`; then it becomes a blank in the
-    given style. -/
+    given style. (`Lemmas.cutBy_iff`: under `rowWF`, `cutBy r i c` says exactly that column `c` is
+    a continuation cell of the character covering cell `i`.) -/
 theorem Row.put_other (r : Row) (x : Nat) (text : Bytes) (w : Nat) (st : Style)
     (hwf : rowWF r = true) (hw : 1 ≤ w) (i : Nat) (hi : i < r.length) (hout : i < x ∨ x + w ≤ i) :
     (Row.put r x text w st)[i]? =
@@ -931,6 +959,52 @@ theorem put_lastcol_wrap_scroll (pol : WidePolicy) (s : Scr) (text : Bytes) (w0 
     · split
       · rfl
       · next h1 h2 => rw [row_set s _ s.bot _ rfl y (by omega), if_neg (by omega)]
+
+/-- **"Keeps overwriting the last column when autowrap is off."** A character of width (at most)
+    1 written on the last column with autowrap off replaces the cell under the cursor and leaves
+    the cursor where it is; the state after it satisfies the same hypotheses again. -/
+theorem put_nowrap_last_column (pol : WidePolicy) (s : Scr) (text : Bytes) (w0 : Nat)
+    (hpol : pol = .blank ∨ contAt (s.row s.cy) s.cx = false) (hw0 : w0 ≤ 1)
+    (hwrap : s.wrap = false) (hcx : s.cx + 1 = s.w) :
+    Scr.put pol s text w0 =
+      { s with grid := s.grid.set s.cy (Row.put (s.row s.cy) s.cx text 1 s.sty) } := by
+  have hW : effW s w0 = 1 := by unfold effW; split <;> omega
+  have hT : effText s text w0 = text := by
+    unfold effText; rw [if_neg (by omega)]
+  rw [put_lastcol_nowrap pol s text w0 hpol (by omega) hwrap]
+  unfold putRow
+  rw [hW, hT]
+  have : s.w - 1 = s.cx := by omega
+  rw [this]
+
+/-- **"Stored in the cell(s) starting at the cursor with the current attributes."** Whenever the
+    character fits after the cursor and the write does not scroll the cursor row away, the cell at
+    the old cursor position holds the character (U+FFFD if it is wider than the screen) with its
+    width and the current style, and the next `width - 1` cells are continuation cells in the
+    current style. -/
+theorem put_cursor_cell (pol : WidePolicy) (s : Scr) (text : Bytes) (w0 : Nat) (hinv : s.inv = true)
+    (hpol : pol = .blank ∨ contAt (s.row s.cy) s.cx = false) (hfit : s.cx + effW s w0 ≤ s.w)
+    (hns : ¬ (s.cx + effW s w0 = s.w ∧ s.wrap = true ∧ s.cy = s.bot)) :
+    ((Scr.put pol s text w0).row s.cy)[s.cx]? =
+      some ⟨.ch (effText s text w0) (effW s w0), s.sty⟩ ∧
+    ∀ k, s.cx < k → k < s.cx + effW s w0 →
+      ((Scr.put pol s text w0).row s.cy)[k]? = some ⟨.cont, s.sty⟩ := by
+  obtain ⟨_, _, hg, hrows, hcx, hcy, _⟩ := (inv_iff s).1 hinv
+  have hl : (s.row s.cy).length = s.w := (hrows _ (row_mem s s.cy (by omega))).1
+  have hrow : (Scr.put pol s text w0).row s.cy = putRow s text w0 := by
+    by_cases h1 : s.cx + effW s w0 < s.w
+    · rw [put_inside pol s text w0 hpol h1, row_set s _ s.cy _ rfl s.cy (by omega), if_pos rfl]
+    · by_cases hwrap : s.wrap = true
+      · have hb : s.cy ≠ s.bot := fun e => hns ⟨by omega, hwrap, e⟩
+        rw [put_lastcol_wrap_noscroll pol s text w0 hpol (by omega) hwrap hb,
+          row_set s _ s.cy _ rfl s.cy (by omega), if_pos rfl]
+      · have hwrap' : s.wrap = false := by simpa using hwrap
+        rw [put_lastcol_nowrap pol s text w0 hpol (by omega) hwrap',
+          row_set s _ s.cy _ rfl s.cy (by omega), if_pos rfl]
+  rw [hrow]
+  unfold putRow
+  exact ⟨Row.put_head _ _ _ _ _ (by omega),
+    fun k k1 k2 => Row.put_tail _ _ _ _ _ k k1 k2 (by omega)⟩
 
 /-! ## 3. The right edge: the character does not fit after the cursor -/
 
@@ -1334,7 +1408,7 @@ theorem put_keep_eq_blank (s : Scr) (text : Bytes) (w0 : Nat) (hinv : s.inv = tr
       exact putAt_keep_eq_blank _ _ _ h3
 
 /-- (5) for characters of width at most 1: on a well-formed screen they always fit -/
-theorem put_keep_eq_blank_narrow (s : Scr) (text : Bytes) (w0 : Nat) (hinv : s.inv = true)
+theorem put_keep_eq_blank_width1 (s : Scr) (text : Bytes) (w0 : Nat) (hinv : s.inv = true)
     (hw0 : w0 ≤ 1) (h : contAt (s.row s.cy) s.cx = false) :
     Scr.put .keep s text w0 = Scr.put .blank s text w0 := by
   obtain ⟨hw, _, _, _, hcx, _⟩ := (inv_iff s).1 hinv
@@ -2044,3 +2118,39 @@ theorem putKeep_width3_not_wf_example :
 end Examples
 
 end TM.C03
+
+#print axioms TM.C03.Row.put_length
+#print axioms TM.C03.Row.put_head
+#print axioms TM.C03.Row.put_tail
+#print axioms TM.C03.Row.put_other
+#print axioms TM.C03.Row.put_other_clean
+#print axioms TM.C03.Row.put_cell
+#print axioms TM.C03.Row.put_wf
+#print axioms TM.C03.Row.put_sty
+#print axioms TM.C03.put_inside
+#print axioms TM.C03.put_lastcol_nowrap
+#print axioms TM.C03.put_lastcol_wrap
+#print axioms TM.C03.put_lastcol_wrap_noscroll
+#print axioms TM.C03.put_lastcol_wrap_scroll
+#print axioms TM.C03.put_nowrap_last_column
+#print axioms TM.C03.put_cursor_cell
+#print axioms TM.C03.put_edge_wrap
+#print axioms TM.C03.put_edge_nowrap
+#print axioms TM.C03.put_edge_nowrap_explicit
+#print axioms TM.C03.put_edge_wrap_noscroll
+#print axioms TM.C03.put_edge_wrap_scroll
+#print axioms TM.C03.put_frame
+#print axioms TM.C03.put_rows_origin
+#print axioms TM.C03.put_keep_eq_blank
+#print axioms TM.C03.put_keep_eq_blank_width1
+#print axioms TM.C03.put_keep_ne_blank_example
+#print axioms TM.C03.put_blank_inv
+#print axioms TM.C03.put_keep_inv_off_cont
+#print axioms TM.C03.put_keep_inv_narrow
+#print axioms TM.C03.Row.putKeep_length
+#print axioms TM.C03.Row.putKeep_cell
+#print axioms TM.C03.Row.putKeep_kept
+#print axioms TM.C03.Row.putKeep_wf
+#print axioms TM.C03.put_keep_on_cont
+#print axioms TM.C03.putKeep_width3_not_wf_example
+#print axioms TM.C03.apply_text
